@@ -466,6 +466,52 @@ for _t in ("wezterm", "iterm2"):
 
 
 # =====================================================================================================
+# _handle_interrupted_draw of the graphics styles: what the draw units above assume of it
+# =====================================================================================================
+def handler_unit(rel, cls):
+    @unit("C07", f"{rel.split('/')[-1][:-3]}:{cls}._handle_interrupted_draw")
+    def u(ctx):
+        """Called when a draw is cut short inside a graphics command: whatever the terminal was in the middle of (an APC / OSC string,
+        a chunked transmission), after the handler it is back on the ground state - on the stream the draw was writing to, which is
+        `sys.stdout` AS IT IS NOW (a stream bound when the module was imported is another object once stdout has been re-bound)."""
+        obs = []
+        for inside in ("apc", "osc", "ground"):
+            eng = ctx.engine(f"C07/{cls}._handle_interrupted_draw[terminal-inside={inside}]", "C07")
+            eng.default_replay = "C07.old_draw_faults"
+            st = State()
+            cs = ctlseq_world(ctx, eng)
+            eng.genv["ctlseqs"] = cs
+            T = OldTerm(eng, st, True)
+            install_print(eng, T)
+            eng.genv["sys"] = Namespace("sys", {"stdout": T.out})
+            stale = st.new("stale_stream", {})
+            eng.methods[("stale_stream", "write")] = lambda e, s, recv, a, k: [(None, s)]       # goes elsewhere: no effect on this terminal
+            eng.methods[("stale_stream", "flush")] = lambda e, s, recv, a, k: [(None, s)]
+            for nm in ("_stdout_write", "_stdout", "stdout_write", "_write"):
+                eng.genv.setdefault(nm, Fn(lambda e, s, a, k: [(None, s)]))
+            g = dict(st.ghost["vt"])
+            if inside != "ground":
+                g["parser"], g["cmd_open"] = ("str", inside, [], []), True
+            st.ghost["vt"] = g
+            T.faults = ()                       # (a fault inside the handler itself is the draw's clean-up: excluded by the property)
+            outs = run_function(eng, ctx.fn(rel, f"{cls}._handle_interrupted_draw"), st)
+            for kind, val, s in outs:
+                if kind == "raise":
+                    eng.oblige(f"no-exception:{val.cls}", s, False, kind="raise")
+                    continue
+                g2 = s.ghost["vt"]
+                eng.oblige("terminal-back-on-the-ground-state(no-command-left-open)-on-the-current-stdout", s,
+                           And(g2["parser"] == "ground", g2["cmd_open"] is False or (is_sym(g2["cmd_open"]) and Not(g2["cmd_open"]))), kind="post")
+            obs += eng.obligations
+        return obs
+    return u
+
+
+handler_unit("image/kitty.py", "KittyImage")
+handler_unit("image/iterm2.py", "ITerm2Image")
+
+
+# =====================================================================================================
 # KittyImage._display_animated / _clear_frame: every frame of an animation replaces the previous one
 # =====================================================================================================
 @unit("C06", "kitty:KittyImage._display_animated+_clear_frame")
